@@ -321,6 +321,29 @@ def cmd_family(seed, n, depth=2, maxlen=4, budget=8000, extras=("help", "unk", "
     return out
 
 
+def lithead(id, word):
+    return {"id": id, "kind": "lit", "lit": word, "arity": "one", "vt": "none", "shorts": [], "longs": [], "letters": [], "lchars": [],
+            "env": "", "adj": False, "guard": False, "catch": False, "hidden": False, "help": "", "completer": [], "metavar": ""}
+
+
+def littag_family(seed, n, maxlen=4, budget=5000):
+    """adjacent groups whose tag is a fixed word looked for anywhere (`+ext NAME`, find's `-user NAME` idiom) next to free
+    positional items - engine GroupLine"""
+    out = []
+    for i in range(n):
+        wrap = ["opt", "many", "one"][i % 3]
+        # (text members: which of several failing starts is reported, and when, is not what this family is about)
+        g = adjf("g0", wrap, lithead("h0", "+ext"), posm("x", "str")) if i % 2 else \
+            adjf("g0", wrap, lithead("h0", "+ext"), posm("x", "str"), posm("y", "str"))
+        named = [g] if i % 2 else [sw("o1", "-v"), g]
+        tail = [postail(pos("p0", "many")), postail(pos("p0", "opt")), NOTAIL][(i // 3) % 3]
+        d = mkdef(f"littag{seed}_{i}", level(named, tail), maxlen=maxlen, extras=("unk",) if i % 4 == 0 else (), spells=("sep",), words=("+ext", "1", "x"))
+        galpha_trim(d, budget)
+        d["alpha"]["words"] = list(dict.fromkeys(["+ext"] + d["alpha"]["words"]))
+        out.append(d)
+    return out
+
+
 def posfirst_family(seed, n, maxlen=4, budget=5000):
     """a positional item declared in front of a name-led adjacent group (`NAME [--at X Y]`) - engine GroupLine"""
     out = []
